@@ -378,3 +378,14 @@ pub fn canonical_ops(solver: Solver, c: &Cfg) -> Vec<Op> {
 pub fn solve<N: Fld>(solver: Solver, mode: DimMode, c: &Cfg, y0: &[N], rhs: Rhs<N>, lim: &Limits) -> RunOut<N> {
     run_ops(solver, mode, &canonical_ops(solver, c), y0, rhs, lim)
 }
+/// the same configuration reached through a builder on which every numeric setter had been called before with another
+/// (looser / wider) value: the later call must win (minimum first so that the bounds stay ordered at every call)
+pub fn solve_reconfigured<N: Fld>(solver: Solver, mode: DimMode, c: &Cfg, y0: &[N], rhs: Rhs<N>, lim: &Limits) -> RunOut<N> {
+    let mut ops = if solver == Solver::Euler { vec![Op::Max(2.0 * c.dtmax), Op::T0(c.t0 - 1.0)] } else { vec![Op::Min(c.dtmin * 0.5), Op::Max(c.dtmax * 4.0), Op::Tol(c.tol * 1e3), Op::T0(c.t0 - 1.0)] };
+    let npre = ops.len();
+    ops.extend(canonical_ops(solver, c));
+    let mut out = run_ops(solver, mode, &ops, y0, rhs, lim);
+    // callers look at the canonical part of the call results
+    out.build = out.build.split_off(npre.min(out.build.len()));
+    out
+}
